@@ -201,45 +201,57 @@ func (w *hostWorld) newSector() *[sectorSize]byte {
 	return &s
 }
 
+// fixedSector is the i-th sector the reference renter uses to (re)fill the contract: always the
+// same bytes, so that re-normalising after a trim does not consume fresh storage.
+func fixedSector(i int) *[sectorSize]byte {
+	var s [sectorSize]byte
+	binary.LittleEndian.PutUint64(s[:8], uint64(i)+1)
+	binary.LittleEndian.PutUint64(s[8:16], 0xC14F1D)
+	return &s
+}
+
 // normalize brings the contract to exactly n sectors using the reference renter.
-func (w *hostWorld) normalize(n int) {
-	for tries := 0; tries < 20; tries++ {
+func (w *hostWorld) normalize(n int) error {
+	for tries := 0; tries < 24; tries++ {
 		roots := w.node.Contracts.SectorRoots(w.fcid)
 		if len(roots) == n {
-			return
+			return nil
 		}
 		rev := w.currentRevision()
 		if len(roots) < n {
 			cost, _ := w.pt.BaseCost().Add(w.pt.AppendSectorCost(rev.Revision.WindowEnd - w.pt.HostBlockHeight)).Total()
-			if _, err := w.sess.AppendSector(w.newSector(), &rev, w.renterKey, proto3.AccountPayment(w.account, w.renterKey), cost); err != nil {
-				w.t.Fatal("normalize append:", err)
+			if _, err := w.sess.AppendSector(fixedSector(len(roots)), &rev, w.renterKey, proto3.AccountPayment(w.account, w.renterKey), cost); err != nil {
+				return fmt.Errorf("normalize append: %w", err)
 			}
 			continue
 		}
-		w.legitTrim(&rev, uint64(len(roots)-n))
+		if err := w.legitTrim(uint64(len(roots) - n)); err != nil {
+			return err
+		}
 	}
-	w.t.Fatal("normalize: did not converge")
+	return errors.New("normalize: did not converge")
 }
 
-func (w *hostWorld) legitTrim(rev *crhp2.ContractRevision, k uint64) {
+func (w *hostWorld) legitTrim(k uint64) error {
 	tr, lrev, err := w.lock2()
 	if err != nil {
-		w.t.Fatal("normalize lock:", err)
+		return fmt.Errorf("normalize lock: %w", err)
 	}
 	defer tr.Close()
 	settings, err := proto2.RPCSettings(tr)
 	if err != nil {
-		w.t.Fatal(err)
+		return err
 	}
 	actions := []crhp2.RPCWriteAction{{Type: crhp2.RPCWriteActionTrim, A: k}}
 	rc, err := settings.RPCWriteCost(actions, lrev.NumSectors(), lrev.Revision.WindowEnd-w.node.Chain.Tip().Height, true)
 	if err != nil {
-		w.t.Fatal(err)
+		return err
 	}
 	cost, collateral := rc.Total()
 	if err := proto2.RPCWrite(tr, w.renterKey, &lrev, actions, cost, collateral); err != nil {
-		w.t.Fatal("normalize trim:", err)
+		return fmt.Errorf("normalize trim: %w", err)
 	}
+	return nil
 }
 
 // lock2 opens a fresh RHP2 session and locks the contract.
@@ -262,17 +274,37 @@ func (w *hostWorld) lock2() (*crhp2.Transport, crhp2.ContractRevision, error) {
 	return tr, rev, nil
 }
 
-func (w *hostWorld) ensureBalance() {
+func (w *hostWorld) ensureBalance() error {
 	bal, err := w.node.Accounts.Balance(w.account)
 	if err != nil {
-		w.t.Fatal(err)
+		return err
 	}
 	if bal.Cmp(types.Siacoins(20)) < 0 {
 		rev := w.currentRevision()
 		if _, err := w.sess.FundAccount(w.account, proto3.ContractPayment(&rev, w.renterKey, w.account), types.Siacoins(100)); err != nil {
-			w.t.Fatal("refund account:", err)
+			return fmt.Errorf("refund account: %w", err)
 		}
 	}
+	return nil
+}
+
+// prepare tops up the account and brings the contract to n sectors.
+func (w *hostWorld) prepare(n int) string {
+	if err := w.ensureBalance(); err != nil {
+		return "res=badcase why=" + sanitize(err.Error())
+	}
+	if err := w.normalize(n); err != nil {
+		return "res=badcase why=" + sanitize(err.Error())
+	}
+	return ""
+}
+
+func sanitize(s string) string {
+	s = strings.NewReplacer(" ", "_", "=", ":", "\n", "_").Replace(s)
+	if len(s) > 160 {
+		s = s[:160]
+	}
+	return s
 }
 
 // ---------------------------------------------------------------- snapshots
@@ -672,8 +704,9 @@ func hashRevision(rev types.FileContractRevision) types.Hash256 {
 
 // doX3 runs one MDM program through the real RHP3 execute-program handler.
 func (w *hostWorld) doX3(p vhlib.ParsedLine) string {
-	w.ensureBalance()
-	w.normalize(p.Int("n"))
+	if bad := w.prepare(p.Int("n")); bad != "" {
+		return bad
+	}
 	specs, err := parseProg(p.List("prog"))
 	if err != nil {
 		return "res=badcase why=" + strings.ReplaceAll(err.Error(), " ", "_")
@@ -1054,7 +1087,9 @@ func (w *hostWorld) settings2(tr *crhp2.Transport) crhp2.HostSettings {
 
 // doV2Roots: RPCSectorRoots with hostile offset/count.
 func (w *hostWorld) doV2Roots(p vhlib.ParsedLine) string {
-	w.normalize(p.Int("n"))
+	if bad := w.prepare(p.Int("n")); bad != "" {
+		return bad
+	}
 	before := w.snapshot()
 	tr, lrev, err := w.lock2()
 	if err != nil {
@@ -1105,7 +1140,9 @@ func orDefault(s, d string) string {
 
 // doV2Read: RPCRead with hostile sections `root:off:len` (root = contract sector index, >=100 unknown).
 func (w *hostWorld) doV2Read(p vhlib.ParsedLine) string {
-	w.normalize(p.Int("n"))
+	if bad := w.prepare(p.Int("n")); bad != "" {
+		return bad
+	}
 	before := w.snapshot()
 	roots := w.node.Contracts.SectorRoots(w.fcid)
 	var secs []crhp2.RPCReadRequestSection
@@ -1170,7 +1207,9 @@ func (w *hostWorld) doV2Read(p vhlib.ParsedLine) string {
 
 // doV2Write: RPCWrite with hostile actions: A (append), T:k, S:a:b, U:i:off:len
 func (w *hostWorld) doV2Write(p vhlib.ParsedLine) string {
-	w.normalize(p.Int("n"))
+	if bad := w.prepare(p.Int("n")); bad != "" {
+		return bad
+	}
 	before := w.snapshot()
 	var actions []crhp2.RPCWriteAction
 	for _, it := range p.List("acts") {
